@@ -104,11 +104,12 @@ CLAIMS = {
          "completion the last input item is delivered last - debounce, throttle with a trailing edge), C09_buffer_with_time / "
          "C09_buffer_with_count_and_time (buffers non-empty, within the count limit, their concatenation a prefix of the input, the whole input "
          "once completed), exactness under an executor that runs as timers fall due: C09_debounce_spaced, C09_debounce_burst, "
-         "C09_buffer_windows, C09_buffer_count_windows; plus the window-task theorems (fires at most once, never before the window has "
+         "C09_throttle_leading_exact / _trailing_exact / _both_edges_exact / _completion_flushes (first item of a window on the leading "
+         "edge, last one on the trailing edge), C09_buffer_windows, C09_buffer_count_windows; plus the window-task theorems (fires at most once, never before the window has "
          "elapsed, never once cancelled, flushes a window apart). The same predicates judge every implementation trace and full traces are "
          "compared with the timed model (debounce, throttle x 3 edges, buffer_with_time, buffer_with_count_and_time; all label sequences <= 4 plus "
-         "random ones with gaps <, =, > the window). throttle's exact leading/trailing choice per window is covered by the full-trace "
-         "comparison, not by a closed-form theorem; sample(notifier) is decided under C04.", "DESIGN.md section 5 C09"),
+         "random ones with gaps <, =, > the window), two overlapping subscriptions of one operator value, zero-length windows. "
+         "sample(notifier) is decided under C04.", "DESIGN.md section 5 C09"),
  "C02": ("Theorem C02_timed: for each of delay, observe_on, delay_subscription, subscribe_on, debounce, throttle (3 edges), "
          "buffer_with_time, buffer_with_count_and_time, interval, interval_at, timer, for EVERY label sequence before the unsubscription (input "
          "events, polls of any task in any order, clock advances) and EVERY one after it, no subscriber call occurs from the unsubscribe "
